@@ -100,6 +100,33 @@ def run(ctx):
     ctx.compare(enc_cases, 'wif-export')
     ctx.compare(dec_cases, 'wif-import')
 
+    # ---------------- public keys: compressed <-> uncompressed on one object, incl. y coordinates with leading zero digits ----------
+    pub_cases = []
+    small_y = []
+    for dd in list(range(1, 700 if not T else 3000)):
+        kk = Key(dd)
+        yb = kk.public_uncompressed_byte[33:]
+        if yb[0] < 0x10:
+            small_y.append(kk)
+        if len(small_y) >= (12 if not T else 60):
+            break
+    for kk in small_y + [Key(rng.randrange(1, 2**255)) for _ in range(6)]:
+        comp = kk.public_compressed_byte
+        for how, mk in (('hex', lambda: Key(comp.hex())), ('bytes', lambda: Key(comp)),
+                        ('xpub', lambda: HDKey(HDKey(key=kk.private_byte, chain=b'\x07' * 32).wif_public()))):
+            try:
+                k2 = mk()
+                got = '%s %s' % (k2.public_compressed_byte.hex(), k2.public_uncompressed_byte.hex())
+                # and the uncompressed export must import as the same point again
+                k3 = Key(k2.public_uncompressed_hex)
+                if k3.public_compressed_byte != comp or k3.is_private:
+                    got += ' reimport-differs'
+            except Exception as e:
+                got = 'raise:%s' % type(e).__name__
+            ctx.count('public-roundtrip:' + how)
+            pub_cases.append(('key_pub %s' % comp.hex(), got, True))
+    ctx.compare(pub_cases, 'public-forms')
+
     # ---------------- extended keys ---------------------------------------------------------------------------------
     enc_cases = []
     imports = []
